@@ -32,12 +32,14 @@ TRUSTED = ["SimpleMRSLexer regular expressions (not modelled; exercised through 
 LEVEL_TEXT = ("Proof (Coq, no axioms) about the token-level model of delphin/codecs/simplemrs.py: decoding the "
               "token stream of the encoder returns the structure with arguments in role order, each variable's "
               "properties in priority order on first mention, and with properties/alignments removed exactly when "
-              "suppressed; unescape inverts escape. Encoder and decoder models are tied to the code by "
+              "suppressed; unescape inverts escape; for MRS-JSON, from_dict inverts to_dict at the level of the JSON "
+              "value. Encoder and decoder models are tied to the code by "
               "kernel-checked correspondence on the real lexer's tokens; text-level round trip, stability under "
               "re-encoding, indentation, multi-item documents and the MRX, MRS-JSON and Indexed codecs are "
               "checked on the implementation by the oracle.")
-LEVEL_NOTE = ("Partial: the lexer's regular expressions and white space are oracles; MRX, MRS-JSON and Indexed MRS "
-              "are oracle-checked, not modelled.")
+LEVEL_NOTE = ("Partial: the lexer's regular expressions and white space are oracles; MRX and Indexed MRS are "
+              "oracle-checked, not modelled; MRS-JSON is modelled at the level of the JSON value (json.dumps/loads "
+              "are oracles).")
 TECHNIQUE = "Coq proof (token-level decode-of-encode) + kernel-checked correspondence + round-trip oracle on all four codecs"
 DESIGN_REF = "DESIGN.md section 6, C01"
 
